@@ -73,8 +73,7 @@ S_raw == Str1(<<Ch(99), Raw(<<195, 169>>), Raw(<<226, 130, 172>>)>>)            
 S_two == [pieces |-> <<Piece(<<Ch(97)>>), Piece(<<Ch(98), Esc("n")>>)>>]                  \* "a" "b\n"
 S_three == [pieces |-> <<Piece(<<>>), Piece(<<Ch(120)>>), Piece(<<Esc("0")>>)>>]          \* "" "x" "\0"
 StrLits_one == {S_hi}
-StrLits_all == {S_hi, S_empty, S_esc, S_ctl, S_quoted, S_raw, S_two, S_three}
-StrLits_endq == {S_endq}
+StrLits_all == {S_hi, S_empty, S_esc, S_ctl, S_quoted, S_endq, S_raw, S_two, S_three}
 F_a == Piece(<<Ch(97), Ch(46), Ch(112), Ch(110)>>)                                        \* "a.pn"
 F_v == Piece(<<Ch(118), Ch(58), Ch(108), Ch(47), Ch(105), Ch(111), Ch(46), Ch(112), Ch(110)>>)  \* "v:l/io.pn"
 Files_one == {F_a}
